@@ -56,7 +56,12 @@ def run_one(B, shim, wd, rq, bursts, exitcode=0, sig=0, pad=0, timeout=60, extra
     open(d + '/in.txt', 'w').write(rq.get('stdin', ''))
     if rq.get('mailrc'): open(d + '/mailrc', 'w').write('%d\n' % rq['mailrc'])
     sh = rq.get('shell', '/bin/sh')
-    L = ['BEGIN:VCALENDAR', 'VERSION:2.0', 'BEGIN:VTODO', 'UID:job-%s' % os.path.basename(d), 'SUMMARY:. %s/job.sh' % d,
+    L = ['BEGIN:VCALENDAR', 'VERSION:2.0']
+    if rq.get('warmup'):
+        # another task of the same request goes first (one echsx takes them in turn): a short job whose output is mailed too
+        L += ['BEGIN:VTODO', 'UID:warmup-%s' % os.path.basename(d), 'SUMMARY:echo w', 'X-ECHS-SETUID:%d' % os.getuid(), 'X-ECHS-SETGID:%d' % os.getgid(), 'X-ECHS-SHELL:/bin/sh', 'LOCATION:' + d + '/cwd',
+              'X-ECHS-MAIL-RUN:0', 'X-ECHS-MAIL-OUT:1', 'X-ECHS-MAIL-ERR:1', 'ORGANIZER:echse', 'ATTENDEE:root', 'END:VTODO']
+    L += ['BEGIN:VTODO', 'UID:job-%s' % os.path.basename(d), 'SUMMARY:. %s/job.sh' % d,
          'X-ECHS-SETUID:%d' % os.getuid(), 'X-ECHS-SETGID:%d' % os.getgid(), 'X-ECHS-SHELL:' + sh, 'LOCATION:' + d + '/cwd',
          'X-ECHS-UMASK:0%o' % rq['umask'], 'X-ECHS-MAIL-RUN:0', 'X-ECHS-MAIL-OUT:%d' % int(rq['mo']), 'X-ECHS-MAIL-ERR:%d' % int(rq['me']),
          'X-ECHS-IFILE:' + d + '/in.txt']
@@ -75,17 +80,27 @@ def run_one(B, shim, wd, rq, bursts, exitcode=0, sig=0, pad=0, timeout=60, extra
         jr = ''; died = -99
     wall = time.time() - t0
     rd = lambda f: open(d + '/' + f).read().strip() if os.path.exists(d + '/' + f) else ''
-    m = re.search(r'^X-EXIT-STATUS:(\d+)', jr, re.M); ms = re.search(r'^X-SIGNAL:(\d+)', jr, re.M)
+    entries = [x for x in jr.split('BEGIN:VTODO\n')[1:]]
+    jhead_ok = all(x.startswith('DTSTAMP:') for x in entries)          # every journal entry begins with its time stamp
+    mine = [x for x in entries if ('UID:job-' in x)] or entries[-1:]
+    jr1 = mine[-1] if mine else jr
+    m = re.search(r'^X-EXIT-STATUS:(\d+)', jr1, re.M); ms = re.search(r'^X-SIGNAL:(\d+)', jr1, re.M)
     tmpl = [l.split()[0] for l in rd('mkstemp.log').split('\n') if l]
+    # the mails of the job (not the warm-up task's, whose body is the single line w)
+    def is_warm(f):
+        b = open(f, 'rb').read().decode('latin1'); return (b.split('\n\n', 1)[1] if '\n\n' in b else '').strip() == 'w'
+    mails = sorted(d + '/' + f for f in os.listdir(d) if re.match(r'mail\.\d+$', f))
+    nwarm = len([f for f in mails if is_warm(f)]); mails = [f for f in mails if not is_warm(f)]
     alarms = [int(x) for x in rd('alarm.log').split('\n') if x]
     obs = {'starts': len([l for l in rd('starts').split('\n') if l]), 'pwd': rd('pwd'), 'umask': int(rd('umask') or '0', 8), 'stdin': rd('stdin'), 'shell': rd('shell'),
            'ofile': tokens(files[rq['so']]) if rq['so'] else [], 'efile': tokens(files[rq['se']]) if rq['se'] and rq['se'] != rq['so'] else [],
-           'nmail': len([f for f in os.listdir(d) if re.match(r'mail\.\d+$', f)]), 'mail': mail_tokens(d + '/mail.0'),
-           'jexit': int(m.group(1)) if m else -1, 'jsig': int(ms.group(1)) if ms else 0, 'cancelled': 'STATUS:CANCELLED' in jr,
+           'nmail': len(mails), 'mail': mail_tokens(mails[0]) if mails else [],
+           'jexit': int(m.group(1)) if m else -1, 'jsig': int(ms.group(1)) if ms else 0, 'cancelled': 'STATUS:CANCELLED' in jr1, 'jhead_ok': jhead_ok, 'jentries': len(entries),
            'tmpleft': [t for t in tmpl if os.path.exists(t)], 'alarms': alarms, 'wall': round(wall, 2)}
     rq2 = dict(rq, mo=bool(rq['mo']), me=bool(rq['me']), wd=d + '/cwd', stdin=rq.get('stdin', '').strip(), shell=sh, norun=bool(rq.get('norun')))
     out = [[1, i + 1, 7 + pad] for i in range(sum(n for s, n in bursts if s == 1))]
     err = [[2, i + 1, 7 + pad] for i in range(sum(n for s, n in bursts if s == 2))]
+    obs['warm_ok'] = (nwarm == 1 and len(entries) == 2) if rq.get('warmup') else True
     rec = {'e': 'Exec', 'rq': rq2, 'job': {'out': out, 'err': err, 'exit': exitcode, 'sig': sig}, 'obs': obs}
     if died is not None: rec['died'] = died
     for t in obs['tmpleft']:
